@@ -20,6 +20,10 @@ THEOREMS = [
     "Mesa.Legacy.C08_moveToOneOf_lands_on_offered",
     "Mesa.Legacy.C08_closest_minimises_distance",
     "Mesa.Legacy.C08_distance_is_torus_metric",
+    "Mesa.Legacy.C08_remove_takes_out_or_changes_nothing",
+    "Mesa.Legacy.C08_place_appends",
+    "Mesa.Legacy.C08_move_contents",
+    "Mesa.Legacy.C08_swap_exchanges",
     "Mesa.Legacy.C08_network_views_agree_all_histories",
     "Mesa.Legacy.C08_network_step_keeps_agreement",
     "Mesa.Legacy.C08_network_pos_is_the_one_node",
